@@ -49,6 +49,94 @@ class Harness:
         QUAL[name] = MODPATH[file] + name
 
 
+class E2Spec:
+    """One decision problem for engine E2 (MIR symbolic executor, /verif/mirsym): `cls` of mirsym/e2defs.py with params."""
+
+    def __init__(self, name, cls, params, functions, bound, claim, native=None, parts=1, timeout=900, role='main', known_keys=()):
+        self.name = name
+        self.cls = cls
+        self.params = dict(params)
+        self.functions = functions
+        self.bound = bound
+        self.claim = claim
+        self.native = native      # (crate key, native replay fn name, harness file)
+        self.parts = parts        # the input space is split into `parts` classes (first byte mod parts), one process each
+        self.timeout = timeout
+        self.role = role
+        self.known_keys = tuple(known_keys)
+
+
+def dump_mir(work, crates=('data',)):
+    """MIR of /repo's current working tree (optimized MIR as printed by -Zunpretty=mir) -> <work>/mir/<crate>.mir"""
+    md = os.path.join(work, 'mir')
+    os.makedirs(md, exist_ok=True)
+    errs = {}
+    for c in crates:
+        out = os.path.join(md, f'{c}.mir')
+        src = os.path.join(REPO, CRATES[c], 'src', 'lib.rs')
+        env = dict(os.environ)
+        env['CARGO_NET_OFFLINE'] = 'true'
+        env.pop('RUSTFLAGS', None)
+        # rustc only re-emits the MIR when the crate is rebuilt: use a fresh target dir per run
+        tdir = os.path.join(work, 'target-mir')
+        cmd = ['cargo', '+nightly', 'rustc', '--offline', '-p', CRATES[c], '--lib', '--target-dir', tdir, '--',
+               '-Zunpretty=mir', '-C', 'debug-assertions=off', '-C', 'overflow-checks=on']
+        with open(out, 'w') as f:
+            p = subprocess.run(cmd, cwd=REPO, env=env, stdout=f, stderr=subprocess.PIPE, text=True)
+        if p.returncode != 0 or os.path.getsize(out) < 1000:
+            errs[c] = p.stderr[-2000:]
+    shutil.rmtree(os.path.join(work, 'target-mir'), ignore_errors=True)
+    return md, errs
+
+
+def run_e2(work, spec, known, part=None):
+    """run one E2 harness (one partition) in its own process; returns the result dict"""
+    params = dict(spec.params)
+    params['_known'] = sorted(known)
+    params['_name'] = spec.name
+    if part is not None:
+        params['part'] = list(part)
+    tag = spec.name + (f'.p{part[0]}' if part is not None else '')
+    out = os.path.join(work, f'e2-{tag}.json')
+    if os.path.exists(out):
+        os.remove(out)
+    cmd = ['python3-vt', os.path.join(VERIF, 'mirsym', 'run_e2.py'), os.path.join(work, 'mir'), spec.cls, json.dumps(params), out]
+    env = dict(os.environ)
+    env['VERIF_REPO'] = REPO
+    try:
+        p = subprocess.run(cmd, capture_output=True, text=True, timeout=spec.timeout, env=env)
+        if os.path.exists(out):
+            return json.load(open(out))
+        return dict(harness=spec.name, status='inconclusive', violations=[], known_hits={}, covers={}, stats={},
+                    inconclusive=['engine error: ' + (p.stderr or p.stdout)[-1500:]], functions_executed=[], models_used=[])
+    except subprocess.TimeoutExpired:
+        return dict(harness=spec.name, status='inconclusive', violations=[], known_hits={}, covers={}, stats={},
+                    inconclusive=[f'timeout after {spec.timeout}s'], functions_executed=[], models_used=[])
+
+
+def merge_e2(results):
+    r0 = dict(results[0])
+    for r in results[1:]:
+        r0['violations'] = (r0['violations'] + r['violations'])[:8]
+        for k, v in r['known_hits'].items():
+            r0['known_hits'].setdefault(k, v)
+        r0['inconclusive'] = sorted(set(r0['inconclusive']) | set(r['inconclusive']))
+        for k, v in r.get('covers', {}).items():
+            r0['covers'][k] = r0['covers'].get(k, 0) + v
+        for k, v in r.get('stats', {}).items():
+            if isinstance(v, (int, float)):
+                r0['stats'][k] = round(r0['stats'].get(k, 0) + v, 3) if k != 'wall_s' else max(r0['stats'].get(k, 0), v)
+        r0['functions_executed'] = sorted(set(r0['functions_executed']) | set(r['functions_executed']))
+        r0['models_used'] = sorted(set(r0['models_used']) | set(r['models_used']))
+    if r0['violations']:
+        r0['status'] = 'fail'
+    elif r0['inconclusive']:
+        r0['status'] = 'inconclusive'
+    else:
+        r0['status'] = 'pass'
+    return r0
+
+
 def log(*a):
     print(*a, flush=True)
 
